@@ -236,8 +236,26 @@ mod imp {
         Ok(())
     }
 
-    pub fn replay(_case: &Value) -> Vec<Violation> {
-        vec![]
+    /// re-run one shipped vector (identified by file and case name) on revm
+    pub fn replay(case: &Value) -> Vec<Violation> {
+        let name = case["vector"].as_str().unwrap_or("");
+        let file = name.split("::").next().unwrap_or("");
+        let path = format!("/repo/tests/pectra_devnet5/state_tests{file}");
+        let Ok(s) = std::fs::read_to_string(&path) else { return vec![] };
+        let Ok(suite) = serde_json::from_str::<TestSuite>(&s) else { return vec![] };
+        let mut out = vec![];
+        for (uname, unit) in &suite.0 {
+            let short = uname.rsplit("::").next().unwrap_or(uname);
+            let (cases, _) = cases_of(&format!("{file}::{short}"), unit);
+            for c in cases {
+                if c.name == name {
+                    if let (Ok(()), Err(e)) = (run_r(&c), run_revm(&c)) {
+                        out.push(Violation { key: "shipped-vector".into(), msg: format!("{}: {e} (the reference EVM reproduces the vector)", c.name), case: case.clone() });
+                    }
+                }
+            }
+        }
+        out
     }
 
     pub fn run_vectors(ctx: &Ctx) -> Acc {
